@@ -327,11 +327,35 @@ func runPP(stdin []byte, args ...string) (ppResult, error) {
 type c02PPCase struct {
 	S     StreamM
 	Flags []string
+	HTML  bool `json:",omitempty"` // -html FILE: renderings go to the file, stdout carries the pass-through text only
+	File  bool `json:",omitempty"` // the input is given as a file argument instead of stdin
 }
 
 func c02PPOracle(c c02PPCase) error {
 	args := append([]string{"-rebase=false"}, c.Flags...)
-	whole, err := runPP(c.S.Bytes(), args...)
+	if c.HTML {
+		hf, err := os.CreateTemp(os.Getenv("VERIF_WORK"), "c02*.html")
+		if err != nil {
+			return fmt.Errorf("HARNESS: %v", err)
+		}
+		hf.Close()
+		defer os.Remove(hf.Name())
+		args = append(args, "-html", hf.Name())
+	}
+	var whole ppResult
+	var err error
+	if c.File {
+		inf, ferr := os.CreateTemp(os.Getenv("VERIF_WORK"), "c02in*.txt")
+		if ferr != nil {
+			return fmt.Errorf("HARNESS: %v", ferr)
+		}
+		inf.Write(c.S.Bytes())
+		inf.Close()
+		defer os.Remove(inf.Name())
+		whole, err = runPP(nil, append(append([]string{}, args...), inf.Name())...)
+	} else {
+		whole, err = runPP(c.S.Bytes(), args...)
+	}
 	if err != nil {
 		return err
 	}
@@ -364,13 +388,15 @@ var c02PP = Check[c02PPCase]{
 		o.MaxItems = 3
 		c := c02PPCase{S: genStream(t, o)}
 		c.Flags = rapid.SampledFrom([][]string{{"-no-color"}, {"-force-color"}, {"-no-color", "-aggressive"}, {"-no-color", "-full-path"}, {"-no-color", "-parse=false"}}).Draw(t, "flags")
+		c.HTML = oneIn(t, 5, "html")
+		c.File = oneIn(t, 4, "fileArg")
 		return c
 	},
 	Oracle: c02PPOracle,
 	Obs: func(c c02PPCase) Obs {
 		o := streamObs(&c.S)
 		o.Classes = append(o.Classes, "pp")
-		o.Digest = digestBytes(c.S.Bytes(), []byte(fmt.Sprint(c.Flags)))
+		o.Digest = digestBytes(c.S.Bytes(), []byte(fmt.Sprint(c.Flags, c.HTML, c.File)))
 		return o
 	},
 }
